@@ -120,7 +120,7 @@ class C25(core.Check):
     GEN = ['gen_locks']
     PROPS = 'props/C25.v'
     MODEL_IMPORTS = ['gen.Gen_locks', 'model.Locks', 'model.RandomFile']
-    QUICK_CASES = 500
+    QUICK_CASES = 300
     THOROUGH_CASES = 2000
     TRUSTED = ['hand model model/RandomFile.v: the host stream (seek/read/write/tell of a Python binary file object '
                'with zero fill past the end) is a MODEL of io, not verified; RandomFile.get/put/_set_record_pos/'
